@@ -9,6 +9,7 @@ def between(s,a,b,new):
 SHORT={
  "C01":"key/value codecs of the ledger buckets incl. the block-record family; bucket helpers against the abstract bucket map; `ScriptAddressBalance`: a coin enters a spendable/withdrawable column exactly under the consensus maturity rule, for its class, when no pool transaction spends it; lemmas in `filterTx`, `filterBlock`, `Rollback`",
  "C02":"conservation lemma of one settled pass of `autoConstructTxInAndChangeTxOut`; <= 1 added output, requested outputs untouched; fee >= user fee / relay minimum; explicit-input ownership; eligibility filter of automatic selection; sender/change pass-through of estimators and `Create*`",
+ "C03":"frame of `signWitnessTx`: only the witness of an input is ever assigned (inputs, outpoints, sequences, outputs, lock time, version, payload kept on success and on every error path)",
  "C08":"erase-by-prefix complete and framed (`deleteByPrefix`, `Remove*ByWalletId`); `removableTxForRemoveWallet`; removal-step and passphrase/readiness lemmas",
  "C09":"pending-transaction buckets: key schema, value format typestate, insert/delete/lookup helpers, `insertUnminedInputs`, `removeConflict`, `ExistsUtxo`, settle ordering in `insertMinedTx`, `Rollback` re-insert format and marker key",
  "C10":"history key codecs; sequence lemma for `constructTxIn`/`addTxIn`; withdraw/unwithdraw flips; deposit classes in the balance guards; `Rollback` flip guard",
